@@ -328,9 +328,42 @@ func (c *Ctx) execInvoke(fr *frame, st *State, call *ssa.CallCommon, recv *Val, 
 	if r, ok := c.invokeIntrinsic(st, key, recv, args, call, pos); ok {
 		return r
 	}
+	if c.W.pureIfaceMethods[key] {
+		// observer methods of immutable-by-convention interfaces: a
+		// deterministic function of receiver identity and arguments
+		c.abstracted("pure interface call " + key + " (uninterpreted, deterministic)")
+		var in []*Term
+		in = append(in, l...)
+		for _, a := range args {
+			in = append(in, a.leaves()...)
+		}
+		res := call.Signature().Results()
+		mk := func(i int, t types.Type) *Val {
+			ss := leafSorts(t)
+			out := make([]*Term, len(ss))
+			for j, srt := range ss {
+				out[j] = UF(fmt.Sprintf("%s#%d.%d", sanitize(key), i, j), srt, in...)
+			}
+			v := mkVal(t, out)
+			if inv := c.typeInvariant(st, v); !inv.IsTrue() {
+				c.assume(st.pc, inv)
+			}
+			return v
+		}
+		switch res.Len() {
+		case 0:
+			return nil
+		case 1:
+			return mk(0, res.At(0).Type())
+		}
+		parts := make([]*Val, res.Len())
+		for i := range parts {
+			parts[i] = mk(i, res.At(i).Type())
+		}
+		return makeTuple(res, parts)
+	}
 	c.abstracted("interface call " + key)
-	pure := c.W.pureIfaceMethods[key]
-	return c.havocCall(st, call.Signature(), args, call.Method.Name(), pure)
+	return c.havocCall(st, call.Signature(), args, call.Method.Name(), false)
 }
 
 // ---- builtins ----
